@@ -98,6 +98,148 @@ def gen_cases(rng, count, variant, complex_amplitudes=False):
 
 
 # ---------------------------------------------------------------------------------------------------------------
+# tiny amplitudes: matrix elements of the Hamiltonian far below every threshold the library uses for OTHER quantities
+# (FieldOperatorPart::MatrixElementTolerance = 1e-8 is about matrix elements of c / c^+ between normalised eigenvectors, numbers of
+# order 1; the Hamiltonian carries energy units and has no such cut).  All values are powers of two times small integers, so the
+# block matrices stay exact in binary64 (the spread between the largest and the smallest term is below 2^45) and the exact
+# comparison with the model holds.  Above 100 * epsilon = 2.2e-14 (Operator's own zero test), so no term may be dropped at all.
+# Degenerate levels throughout: the tiny coupling decides the eigenvectors and shifts the eigenvalues at FIRST order.
+
+TINY_EXPONENTS = [28, 30, 31, 33, 36, 40]
+
+
+def tiny(rng, sign=True):
+    x = 2.0 ** -rng.choice(TINY_EXPONENTS)
+    return -x if sign and rng.random() < 0.5 else x
+
+
+def _fin(rng, name, s, symm, nm):
+    return name, s + "symm %s\nbeta %s\n" % (symm, scen.f(rng.choice(scen.BETAS))), nm, {"tiny": True}
+
+
+def tiny_weak_link(rng, symm="default"):
+    """two identical atoms (interacting or not) joined by a hopping of 2^-28 .. 2^-40: exact eigenvectors (1,+-1)/sqrt 2"""
+    U = rng.choice([0, 1, 2])
+    eps = rng.choice([-U / 2, -U / 2, rng.choice(scen.DY)])
+    s = "site A 1 2\nsite B 1 2\naddCoulombS A %s %s\naddCoulombS B %s %s\n" % (scen.f(U), scen.f(eps), scen.f(U), scen.f(eps))
+    s += "addHopping4 A B %s\n" % scen.f(tiny(rng))
+    return _fin(rng, "tiny-weak-link", s, symm, 4)
+
+
+def tiny_units(rng, symm="default"):
+    """a whole model written in units of u = 2^-k: every matrix element, diagonal ones included, is below 1e-8"""
+    u = tiny(rng, sign=False)
+    U = rng.choice([1, 2, 4])
+    kind = rng.random()
+    if kind < 0.4:
+        s = "site A 1 2\nsite B 1 2\naddCoulombS A %s %s\naddCoulombS B %s %s\naddHopping4 A B %s\n" % (
+            scen.f(U * u), scen.f(-U * u / 2), scen.f(U * u), scen.f(-U * u / 2), scen.f(rng.choice([-1, 0.5, 0.25]) * u))
+        nm = 4
+    elif kind < 0.7:
+        s = "site A 1 2\nsite B 1 2\naddCoulombS A %s %s\naddLevel B %s\naddHopping4 A B %s\n" % (
+            scen.f(U * u), scen.f(-U * u / 2), scen.f(rng.choice([0, 0.5, -0.5]) * u), scen.f(rng.choice([0.5, 1]) * u))
+        nm = 4
+    else:
+        s = "site A 1 2\naddCoulombS A %s %s\naddMagnetization A %s\n" % (scen.f(U * u), scen.f(rng.choice([-U / 2, 0.25]) * u), scen.f(0.25 * u))
+        nm = 2
+    return _fin(rng, "tiny-units", s, symm, nm)
+
+
+def tiny_free(rng, symm="default"):
+    """free degenerate levels, tiny hoppings of two different magnitudes along a chain, one site possibly isolated"""
+    e = rng.choice([0, 0.5, -0.5])
+    three = rng.random() < 0.4
+    s = "site A 1 2\nsite B 1 2\n" + ("site C 1 2\n" if three else "")
+    s += "addLevel A %s\naddLevel B %s\n" % (scen.f(e), scen.f(e)) + ("addLevel C %s\n" % scen.f(e) if three else "")
+    if three:
+        s += "addHopping4 A C %s\n" % scen.f(tiny(rng))
+        if rng.random() < 0.5:
+            s += "addHopping4 B C %s\n" % scen.f(tiny(rng))
+    else:
+        s += "addHopping4 A B %s\n" % scen.f(tiny(rng))
+    return _fin(rng, "tiny-free-degenerate", s, symm, 6 if three else 4)
+
+
+def tiny_spinflip(rng, symm="default"):
+    """an ordinary two-site model whose S_z is broken only by a spin-flip hopping of tiny magnitude"""
+    U = rng.choice([0, 1, 2])
+    s = "site A 1 2\nsite B 1 2\naddCoulombS A %s %s\naddCoulombS B %s %s\n" % (scen.f(U), scen.f(-U / 2), scen.f(U), scen.f(-U / 2))
+    if rng.random() < 0.6:
+        s += "addHopping4 A B %s\n" % scen.f(rng.choice([0.25, 0.5, -0.5]))
+    s += "addHopping8 A B %s 0 0 0 1\n" % scen.f(tiny(rng))
+    return _fin(rng, "tiny-spinflip", s, symm, 4)
+
+
+def tiny_diagonal(rng, symm="default"):
+    """degenerate levels split only by a tiny field / a tiny level shift: diagonal matrix elements O(1) + 2^-k and 1x1 blocks"""
+    U = rng.choice([1, 2])
+    if rng.random() < 0.5:
+        s = "site A 1 2\naddCoulombS A %s %s\naddMagnetization A %s\n" % (scen.f(U), scen.f(-U / 2), scen.f(tiny(rng)))
+        nm = 2
+    else:
+        s = "site A 1 2\nsite B 1 2\naddCoulombS A %s %s\naddCoulombS B %s %s\naddLevel B %s\naddHopping4 A B %s\n" % (
+            scen.f(U), scen.f(-U / 2), scen.f(U), scen.f(-U / 2), scen.f(tiny(rng)), scen.f(rng.choice([0.5, 1, tiny(rng)])))
+        nm = 4
+    return _fin(rng, "tiny-diagonal", s, symm, nm)
+
+
+def tiny_interaction(rng, symm="default"):
+    """free model with O(1) hopping whose many-body degeneracies are lifted by an interaction of tiny magnitude"""
+    e = rng.choice([0, 0.5, -0.5])
+    s = "site A 1 2\nsite B 1 2\naddLevel A %s\naddLevel B %s\naddHopping4 A B %s\n" % (scen.f(e), scen.f(e), scen.f(rng.choice([0.5, 1])))
+    s += "addCoulombS A %s 0\n" % scen.f(tiny(rng, sign=False))
+    if rng.random() < 0.5:
+        s += "addSS A B %s\n" % scen.f(tiny(rng))
+    return _fin(rng, "tiny-interaction", s, symm, 4)
+
+
+def tiny_hund(rng, symm="default"):
+    """two-orbital atom: Hund coupling (spin-flip and pair-hopping terms, off-diagonal inside the blocks) of tiny magnitude"""
+    U = rng.choice([1, 2])
+    s = "site A 2 2\naddCoulombP3 A %s %s %s\n" % (scen.f(U), scen.f(tiny(rng, sign=False)), scen.f(rng.choice([-1, -0.5, 0.25])))
+    return _fin(rng, "tiny-hund", s, symm, 4)
+
+
+FAMS_TINY = [tiny_weak_link, tiny_units, tiny_free, tiny_spinflip, tiny_diagonal, tiny_interaction, tiny_hund]
+
+
+def complexify_tiny(rng, text):
+    """complex build: every hopping gets an imaginary part, a tiny one where the hopping is tiny (phases that cannot be gauged
+    away are not needed: the Hermitian block must be reproduced entry by entry either way)"""
+    out = []
+    for l in text.split("\n"):
+        t = l.split()
+        if t and t[0] in ("addHopping4", "addHopping8") and "," not in t[3]:
+            re_ = float(t[3])
+            im = tiny(rng) if abs(re_) < 1e-6 else rng.choice([0.25, -0.25, tiny(rng)])
+            t[3] = "%s,%s" % (t[3] if rng.random() < 0.7 else "0", scen.f(im))
+            l = " ".join(t)
+        out.append(l)
+    return "\n".join(out)
+
+
+def gen_tiny_cases(rng, count, variant, complex_amplitudes=False):
+    """like gen_cases, over the tiny-amplitude families; the families are cycled so that every one occurs also in a short run"""
+    cases = []
+    k = rng.randrange(len(FAMS_TINY))
+    tries = 0
+    while len(cases) < count and tries < 10 * count + 20:
+        tries += 1
+        fam = FAMS_TINY[k % len(FAMS_TINY)]
+        k += 1
+        name, text, nm, info = fam(rng, "default")
+        if complex_amplitudes:
+            text = complexify_tiny(rng, text)
+        try:
+            parts = partitions(index_info(text, variant))
+        except Exception:
+            continue
+        kind = rng.choice(sorted(parts))
+        cases.append((name, kind, with_symm(text, parts[kind]), nm))
+    return cases
+
+
+# ---------------------------------------------------------------------------------------------------------------
 # dump views
 
 def cplx_list(tokens):
